@@ -135,11 +135,53 @@ def _load_std():
     return _std
 
 
-def _src_path(modl):
+def _std_dir():
     import bootstrap
 
-    rel = {"quantum": "std/quantum/__init__.py", "qsystem": "std/qsystem/__init__.py", "angles": "std/angles.py"}[modl]
-    return os.path.join(bootstrap.REPO, "guppylang", "src", "guppylang", rel)
+    return os.path.join(bootstrap.REPO, "guppylang", "src", "guppylang", "std")
+
+
+def _src_path(modl):
+    if modl == "angles":
+        return os.path.join(_std_dir(), "angles.py")
+    pkg, _, sub = modl.partition(".")
+    return os.path.join(_std_dir(), pkg, (sub or "__init__") + ".py")
+
+
+def list_modules():
+    """every module of the packages guppylang.std.quantum and guppylang.std.qsystem found in the source tree under check:
+    ["quantum", "quantum.functional", "qsystem", "qsystem.functional", ...] (packages first, then sorted submodules)"""
+    out = []
+    for pkg in ("quantum", "qsystem"):
+        d = os.path.join(_std_dir(), pkg)
+        out.append(pkg)
+        for root, dirs, files in os.walk(d):
+            dirs[:] = sorted(x for x in dirs if x != "__pycache__")
+            rel = os.path.relpath(root, d)
+            prefix = pkg if rel == "." else pkg + "." + rel.replace(os.sep, ".")
+            for f in sorted(files):
+                if f.endswith(".py") and f != "__init__.py":
+                    out.append(prefix + "." + f[:-3])
+                elif f == "__init__.py" and rel != ".":
+                    out.append(prefix)
+    return out
+
+
+def _module(modl):
+    import importlib
+
+    _load_std()
+    return importlib.import_module("guppylang.std." + modl)
+
+
+def _src_of(modl):
+    pkg_init = os.path.join(_std_dir(), *modl.split("."), "__init__.py")
+    if os.path.exists(pkg_init):
+        return pkg_init
+    return os.path.join(_std_dir(), *modl.split(".")) + ".py"
+
+
+QUANTUM_MODULES = ("quantum", "qsystem", "quantum.functional", "qsystem.functional")  # bodies are read; others: names only
 
 
 # --------------------------------------------------------------------------- T-src translator
@@ -239,16 +281,39 @@ def _binding_from_object(raw):
 
 
 def _body_calls(fn, params, mod, modl, keyof):
-    """straight-line Guppy body -> list of (callee key, [arg expr]); raises Unsupported otherwise"""
+    """straight-line Guppy body -> (list of (callee key, [arg expr]), [returned expr]); raises Unsupported otherwise.
+    `("res", j)` is the value returned by the j-th call of the body."""
+    import types as _types
+
     std = _load_std()
     env = {}
+    calls = []
+
+    def callee_of(f):
+        if isinstance(f, ast.Name):
+            return getattr(mod, f.id, None)
+        if isinstance(f, ast.Attribute) and isinstance(f.value, ast.Name):
+            m = getattr(mod, f.value.id, None)
+            if isinstance(m, _types.ModuleType):
+                return getattr(m, f.attr, None)
+        return None
+
+    def call(c):
+        if not isinstance(c, ast.Call) or c.keywords:
+            raise Unsupported("call form")
+        target = callee_of(c.func)
+        k = keyof.get(getattr(target, "id", None))
+        if k is None:
+            raise Unsupported("callee " + ast.unparse(c.func))
+        calls.append((k, [exp(a) for a in c.args]))
+        return ("res", len(calls) - 1)
 
     def exp(e):
         if isinstance(e, ast.Name):
-            if e.id in params:
-                return ("p", params.index(e.id))
             if e.id in env:
                 return env[e.id]
+            if e.id in params:
+                return ("p", params.index(e.id))
             if e.id == "pi" and getattr(mod, "pi", None) is std["angles"].pi:
                 return ("pi",)
             raise Unsupported("name " + e.id)
@@ -263,32 +328,27 @@ def _body_calls(fn, params, mod, modl, keyof):
                 return ("mulN", exp(e.left), e.right.value)
         if isinstance(e, ast.BinOp) and isinstance(e.op, ast.Mult) and isinstance(e.left, ast.Constant) and type(e.left.value) is int and e.left.value > 0:
             return ("mulN", exp(e.right), e.left.value)
+        if isinstance(e, ast.Call):
+            return call(e)
         raise Unsupported(ast.dump(e)[:60])
 
-    calls = []
-
-    def call(c):
-        if not (isinstance(c, ast.Call) and isinstance(c.func, ast.Name)) or c.keywords:
-            raise Unsupported("call form")
-        target = getattr(mod, c.func.id, None)
-        k = keyof.get(getattr(target, "id", None))
-        if k is None:
-            raise Unsupported("callee " + c.func.id)
-        calls.append((k, [exp(a) for a in c.args]))
-
+    returns = []
     body = list(fn.body)
     if body and isinstance(body[0], ast.Expr) and isinstance(body[0].value, ast.Constant):
         body = body[1:]
-    for st in body:
+    for i, st in enumerate(body):
         if isinstance(st, ast.Assign) and len(st.targets) == 1 and isinstance(st.targets[0], ast.Name):
             env[st.targets[0].id] = exp(st.value)
-        elif isinstance(st, ast.Expr):
+        elif isinstance(st, ast.Expr) and isinstance(st.value, ast.Call):
             call(st.value)
-        elif isinstance(st, ast.Return) and st.value is not None:
-            call(st.value)
+        elif isinstance(st, ast.Return) and st.value is not None and i == len(body) - 1:
+            if isinstance(st.value, ast.Tuple):
+                returns = [exp(x) for x in st.value.elts]
+            else:
+                returns = [exp(st.value)]
         else:
             raise Unsupported(type(st).__name__)
-    return calls
+    return calls, returns
 
 
 def read_table(ctx=None):
@@ -298,13 +358,17 @@ def read_table(ctx=None):
 
     problems = []
     found = []  # (modl, name, FunctionDef, definition object)
-    for modl in ("quantum", "qsystem"):
-        mod = std[modl]
-        tree = ast.parse(open(_src_path(modl)).read())
+    for modl in list_modules():
+        try:
+            mod = _module(modl)
+        except Exception as e:  # noqa: BLE001
+            problems.append(f"translator: module guppylang.std.{modl} does not import: {type(e).__name__}: {str(e)[:100]}")
+            continue
+        tree = ast.parse(open(_src_of(modl)).read())
         for node in tree.body:
             if isinstance(node, ast.FunctionDef):
                 found.append((modl, node.name, node, getattr(mod, node.name, None)))
-            elif isinstance(node, ast.ClassDef) and node.name == "qubit":
+            elif isinstance(node, ast.ClassDef) and node.name == "qubit" and modl == "quantum":
                 impls = DEF_STORE.impls.get(mod.qubit.id, {})
                 for sub in node.body:
                     if isinstance(sub, ast.FunctionDef):
@@ -320,14 +384,21 @@ def read_table(ctx=None):
             keyof.setdefault(obj.id, (modl, name))
     rows = []
     for modl, name, fn, obj in found:
-        mod = std[modl]
+        mod = _module(modl)
         pnames = [a.arg for a in fn.args.args]
         params = [_pty(a.annotation) for a in fn.args.args]
         ret = ast.unparse(fn.returns) if fn.returns is not None else ""
         if isinstance(fn.returns, ast.Constant) and isinstance(fn.returns.value, str):
             ret = fn.returns.value
         row = {"modl": modl, "name": name, "params": params, "pnames": pnames, "ret": ret,
-               "doc": ast.get_docstring(fn) or ""}
+               "doc": ast.get_docstring(fn) or "", "returns": []}
+        if modl not in QUANTUM_MODULES:
+            # utility modules (random numbers, wasm, shot number): enumerated so that additions are noticed, not modelled
+            if obj is None or getattr(obj, "id", None) is None:
+                problems.append(f"translator: no registered definition object for {modl}.{name}")
+            row["binding"] = ("opaque", "utility module")
+            rows.append(row)
+            continue
         try:
             b = _binding_from_decorators(fn, mod)
         except Unsupported as e:
@@ -342,7 +413,9 @@ def read_table(ctx=None):
             b = bo  # the object is what the compiler uses
         if b[0] == "guppy":
             try:
-                row["binding"] = ("body", _body_calls(fn, pnames, mod, modl, keyof))
+                calls, returns = _body_calls(fn, pnames, mod, modl, keyof)
+                row["binding"] = ("body", calls)
+                row["returns"] = returns
             except Unsupported as e:
                 row["binding"] = ("opaque", str(e))
         elif b[0] in ("direct", "rotation", "measure", "measureReset"):
@@ -369,6 +442,8 @@ def _lean_exp(e):
         return f"(.{k} {_lean_exp(e[1])} {e[2]})"
     if k == "toFloat":
         return f"(.toFloat {_lean_exp(e[1])})"
+    if k == "res":
+        return f"(.res {e[1]})"
     raise AssertionError(e)
 
 
@@ -384,7 +459,8 @@ def _lean_row(r):
     else:
         bs = f".{b[0]} {_lean_str(b[1])}"
     ps = ", ".join("." + p for p in r["params"])
-    return f"  ⟨{_lean_str(r['modl'])}, {_lean_str(r['name'])}, [{ps}], {_lean_str(r['ret'])}, {bs}⟩"
+    rs = ", ".join(_lean_exp(e) for e in r.get("returns", []))
+    return f"  ⟨{_lean_str(r['modl'])}, {_lean_str(r['name'])}, [{ps}], {_lean_str(r['ret'])}, {bs}, [{rs}]⟩"
 
 
 def _pi_halfturns():
@@ -401,11 +477,12 @@ def gen_text(rows):
     lines = [
         "import GuppyVerif.Model.Gate",
         "/-! GENERATED on every run by harness/props/c20.py `translate` from",
-        "    guppylang/src/guppylang/std/quantum/__init__.py, std/qsystem/__init__.py, std/angles.py of the repository",
+        "    every module found under guppylang/src/guppylang/std/quantum/ and std/qsystem/ (and std/angles.py) of the repository",
         "    under check (source AST cross-checked against the registered definition objects).  Do not edit. -/",
         "namespace GuppyVerif.Gate.Gen",
         "",
-        "/-- one row per library function: module, name, parameter kinds, return annotation, binding -/",
+        "/-- one row per top-level function of every module under std/quantum and std/qsystem (+ the methods of `qubit`):",
+        "    module, name, parameter kinds, return annotation, binding, returned expressions of a Guppy body -/",
         "def table : List Row := [",
         ",\n".join(_lean_row(r) for r in rows),
         "]",
@@ -756,6 +833,8 @@ PROBE_PRELUDE = (
     "from guppylang.std.futures import Future\n"
     "import guppylang.std.quantum as quantum\n"
     "import guppylang.std.qsystem as qsystem\n"
+    "import guppylang.std.quantum.functional as quantum_functional\n"
+    "import guppylang.std.qsystem.functional as qsystem_functional\n"
     "from guppylang.std.quantum import qubit\n"
     "from guppylang.std.qsystem import MaybeLeaked\n"
 )
@@ -766,7 +845,7 @@ def probe_source(row, perm):
     body calls the row's function with parameter perm[i] as the i-th actual argument"""
     kinds = row["params"]
     ann = {"qubit": "qubit", "qubitOwned": "qubit @ owned", "angle": "angle", "float": "float"}
-    if any(k not in ann for k in kinds):
+    if any(k not in ann for k in kinds) or row["modl"] not in QUANTUM_MODULES:
         return None
     ps = ", ".join(f"p{i}: {ann[k]}" for i, k in enumerate(kinds))
     actual = [f"p{j}" for j in perm]
@@ -778,7 +857,7 @@ def probe_source(row, perm):
         else:
             callee = f"{actual[0]}.{meth}(" + ", ".join(actual[1:]) + ")"
     else:
-        callee = f"{row['modl']}.{name}(" + ", ".join(actual) + ")"
+        callee = f"{row['modl'].replace('.', '_')}.{name}(" + ", ".join(actual) + ")"
     ret = row["ret"] or "None"
     ret = ret.replace("array[bool, N]", "None")
     if ret == "None":
@@ -829,8 +908,14 @@ ORACLE_SEQ = {  # documented decompositions, in program order; %i = i-th actual 
 ORACLE_OPAQUE = {("quantum", "measure_array"), ("quantum", "discard_array"), ("qsystem", "measure_leaked")}
 
 
-def oracle_ops(row, perm):
+def oracle_ops(row, perm, byk=None):
     key = (row["modl"], row["name"])
+    if row["modl"].endswith(".functional"):
+        # "the same gates ... but use functional syntax": the in-place function of the same name, same argument order
+        base = (byk or {}).get((row["modl"][: -len(".functional")], row["name"]))
+        if base is None:
+            return f"no-in-place-function-named-{row['name']}"
+        return oracle_ops(dict(base, params=row["params"]), perm, byk)
     kinds = row["params"]
     act = []
     for i, k in enumerate(kinds):
@@ -863,9 +948,16 @@ def oracle_ops(row, perm):
     return f"{op}[{' '.join(act)}]"
 
 
+FUNCTIONAL_CONSUMING = {("qsystem.functional", "measure"), ("qsystem.functional", "qfree")}
+
+
 def oracle_outs(row, perm):
-    """borrowed qubit parameters of the probe come back in the probe's own parameter order"""
-    return [f"q{i}" for i, k in enumerate(row["params"]) if k == "qubit"]
+    """functional wrappers return their qubit arguments in declaration order (= the order passed); borrowed qubit
+    parameters of the probe come back in the probe's own parameter order"""
+    outs = []
+    if row["modl"].endswith(".functional") and (row["modl"], row["name"]) not in FUNCTIONAL_CONSUMING:
+        outs += [f"q{perm[i]}" for i, k in enumerate(row["params"]) if k == "qubitOwned"]
+    return outs + [f"q{i}" for i, k in enumerate(row["params"]) if k == "qubit"]
 
 
 def doc_order_ok(row):
@@ -945,7 +1037,7 @@ def tie_gates(ctx, rows):
             try:
                 mod = feed.load(src, prelude=PROBE_PRELUDE)
                 g = feed.lower(mod.p)
-                if opaque and (row["modl"], row["name"]) in ORACLE_OPAQUE:
+                if opaque and ((row["modl"], row["name"]) in ORACLE_OPAQUE or row["modl"] not in QUANTUM_MODULES):
                     real = "opaque"
                 else:
                     ops_txt, outs = read_probe(g, "p", row["params"])
@@ -958,7 +1050,7 @@ def tie_gates(ctx, rows):
             finally:
                 if mod is not None:
                     feed.unload(mod)
-        listed = (row["modl"], row["name"]) in ORACLE_OPAQUE
+        listed = (row["modl"], row["name"]) in ORACLE_OPAQUE or row["modl"] not in QUANTUM_MODULES
         if opaque and listed:
             # documented as unmodelled: only check that it still lowers
             ctx.count(key, nontrivial=False, kind="opaque:" + real.split(":")[0])
@@ -971,7 +1063,7 @@ def tie_gates(ctx, rows):
             if real != m:
                 ctx.broke(f"gate table (model emit) vs lowered probe on {key}: real=`{real}` model=`{m}`")
             continue
-        orc = oracle_ops(row, perm) + " -> " + " ".join(oracle_outs(row, perm))
+        orc = oracle_ops(row, perm, byk) + " -> " + " ".join(oracle_outs(row, perm))
         if not doc_order_ok(row):
             orc = "docstring-qubit-order-differs-from-parameters"
         ctx.count(key, nontrivial=("[" in real), kind=row["binding"][0])
